@@ -273,7 +273,8 @@ pub(crate) fn aead_setup_rfc9580(
     let mut message_key = Zeroizing::new(vec![0; sym_alg.key_size()]);
     message_key.copy_from_slice(&okm.as_slice()[..sym_alg.key_size()]);
 
-    let raw_iv_len = aead.nonce_size() - 8;
+    // unsupported AEAD algorithms report a nonce size of 0 (they are rejected by the callers)
+    let raw_iv_len = aead.nonce_size().saturating_sub(8);
     let iv = &okm[sym_alg.key_size()..sym_alg.key_size() + raw_iv_len];
     let mut nonce = vec![0u8; aead.nonce_size()];
     nonce[..raw_iv_len].copy_from_slice(iv);
